@@ -15,10 +15,14 @@ SEEDS = [
 def specs(tier):
     static = A.dihypergraph_static() + A.dihypergraph_deviant()
     gens = [A.gen_dimember_removals]
+    exotic = explore.Spec("dihypergraph-histories-exotic-labels",
+                          ["xgi.DiHypergraph()", "xgi.DiHypergraph({ET: ([TA], [SB]), 0: ([SB, FC], [TA])})"],
+                          A.dihypergraph_exotic(), gens, invariants=[oracles.directed_incidence], depth=3,
+                          dev_bound=1 if tier == "quick" else 2, namespace=histcheck.base_namespace)
     if tier == "quick":
         return [explore.Spec("dihypergraph-histories", SEEDS, static, gens, invariants=[oracles.directed_incidence],
-                             depth=3, dev_bound=1, namespace=histcheck.base_namespace)]
-    return [
+                             depth=3, dev_bound=1, namespace=histcheck.base_namespace), exotic]
+    return [exotic,
         explore.Spec("dihypergraph-histories", SEEDS, static, gens, invariants=[oracles.directed_incidence],
                      depth=3, dev_bound=2, namespace=histcheck.base_namespace),
         explore.Spec("dihypergraph-histories-deep", SEEDS[:2], A.dihypergraph_trim(), gens,
